@@ -10,6 +10,8 @@ from hypothesis import strategies as st
 from taskiq import Context, TaskiqDepends
 from taskiq.kicker import AsyncKicker
 from taskiq.receiver import Receiver
+from taskiq import AckableMessage
+from taskiq.acks import AcknowledgeType
 
 from vt.core.engine import Outcome, Part, short
 from vt.core.vloop import Deadlock, VirtualTimeLoop
@@ -82,6 +84,9 @@ def cases() -> Any:
         "requeue_first": st.sampled_from([False, True]),
         # save calls (by call order) the result backend fails; what is handed to the backend under an id is still that id's own result
         "fail_saves": st.sampled_from([[], [], [], [0], [0, 1], [1]]),
+        # messages delivered as ackable messages: acknowledge type, and how long the (async) acknowledgement takes
+        "ack": st.one_of(st.none(), st.none(), st.fixed_dictionaries({"type": st.sampled_from(["when_received", "when_received", "when_executed", "when_saved"]),
+                                                                       "lat": st.sampled_from([0, 0.05, 0.12, 0.3])})),
     }).map(_sanitize))
 
 
@@ -185,7 +190,20 @@ def run_case(c: Dict[str, Any]) -> Outcome:
         b.register_task(task, task_name="t")
         b.register_task(mod.plain, task_name="plain")
         b.register_task(mod.nodeps, task_name="nodeps")
-        r = Receiver(b, executor=wh.Inline(), max_async_tasks=10, run_startup=False)
+        ackc = c.get("ack")
+        r = Receiver(b, executor=wh.Inline(), max_async_tasks=10, run_startup=False,
+                     **({"ack_type": AcknowledgeType(ackc["type"])} if ackc else {}))
+
+        def deliver(data: bytes) -> Any:
+            """plain bytes, or an ackable message whose confirmation is a network round trip (it really suspends)"""
+            if not ackc:
+                return data
+
+            async def ack() -> None:
+                if ackc["lat"]:
+                    await asyncio.sleep(ackc["lat"])
+
+            return AckableMessage(data=data, ack=ack)
 
         def payload(k: int, slp: float) -> Any:
             if c.get("nodeps"):
@@ -210,7 +228,7 @@ def run_case(c: Dict[str, Any]) -> Outcome:
             # a redelivery carries exactly the bytes of message 0
             m = payload(0, msgs[0][1]) if dup(k) else payload(k, slp)
             spans[k] = [loop.time(), None]
-            await r.callback(m)
+            await r.callback(deliver(m))
             spans[k][1] = loop.time()
 
         await asyncio.gather(*[one(k, s, sl) for k, (s, sl) in enumerate(msgs)])
@@ -293,7 +311,7 @@ def run_case(c: Dict[str, Any]) -> Outcome:
             if not uc and (nodes[j]["ctx"] or any(nodes[d]["ctx"] for d in dg.descendants(nodes, j))):
                 risky = True
     out.nontrivial = bool(overlap and risky)
-    out.classes = [c_ for c_, f in (("overlap", overlap), ("uncached_ctx_reader", risky), ("custom_ctx", c.get("custom_ctx")), ("dependency_overrides", bool(c.get("overrides"))), ("context_only_via_dependencies", bool(c.get("no_task_ctx"))), ("label_less_messages", bool(c.get("no_labels"))), ("two_messages_same_task_id", bool(c.get("same_id"))), ("result_backend_fails_some_saves", bool(c.get("fail_saves"))), ("byte_identical_redelivery", bool(c.get("dup_payload"))), ("nested_mutable_argument", bool(c.get("bag"))), ("explicit_value_for_injected_parameter", bool(c.get("explicit_dep"))), ("dependency_free_task_optional_kwarg", bool(c.get("nodeps"))), ("typed_and_untyped_label_messages", bool(c.get("untyped")) and len({is_untyped(k) for k in range(len(msgs))}) == 2),
+    out.classes = [c_ for c_, f in (("overlap", overlap), ("uncached_ctx_reader", risky), ("custom_ctx", c.get("custom_ctx")), ("dependency_overrides", bool(c.get("overrides"))), ("context_only_via_dependencies", bool(c.get("no_task_ctx"))), ("label_less_messages", bool(c.get("no_labels"))), ("two_messages_same_task_id", bool(c.get("same_id"))), ("result_backend_fails_some_saves", bool(c.get("fail_saves"))), ("slow_ack_before_execution", bool(c.get("ack")) and c["ack"]["type"] == "when_received" and c["ack"]["lat"] > 0), ("byte_identical_redelivery", bool(c.get("dup_payload"))), ("nested_mutable_argument", bool(c.get("bag"))), ("explicit_value_for_injected_parameter", bool(c.get("explicit_dep"))), ("dependency_free_task_optional_kwarg", bool(c.get("nodeps"))), ("typed_and_untyped_label_messages", bool(c.get("untyped")) and len({is_untyped(k) for k in range(len(msgs))}) == 2),
                                     ("generator_style", any(nodes[i]["style"] in dg.YIELDING for i in reach))) if f]
     out.trace = {"echoes": {str(k): [list(e[:3]) for e in v[:6]] for k, v in echoes.items()}, "spans": {str(k): v for k, v in spans.items()}}
     return out
